@@ -195,7 +195,6 @@ func c09Sig(j c09Job, symptom string, answer ...string) string {
 	return fmt.Sprintf("vector %s symptom=%s answer=%08x", j.name, symptom, h.Sum32())
 }
 
-
 // errHead is the first line of an error's class (the runtime's Catcher appends
 // a stack trace with goroutine numbers and addresses to recovered panics).
 func errHead(err error) string {
